@@ -1251,10 +1251,10 @@ func ruleMissPathGetsReadIndex(c *Ctx, rule string) {
 			n++
 			// when the read failed or gave nothing there is no list to hand on: nil is wrong only where the read is
 			// known to have succeeded (its error was tested nil / its length non-zero on the way here)
-			succeeded := false
+			succeeded, emptyKnown := false, false
 			fromRead := func(v ssa.Value) bool {
 				dep := false
-				c.P.TraceBack(v, TraceOpts{ThroughOps: true, NoParams: true, NoHeapFields: true}, func(x ssa.Value, _ []int) bool {
+				c.P.TraceBack(v, TraceOpts{ThroughOps: true, ThroughExtern: true, NoParams: true, NoHeapFields: true}, func(x ssa.Value, _ []int) bool {
 					if ex, ok := x.(*ssa.Extract); ok {
 						if ti, ok := ex.Tuple.(ssa.Instruction); ok && ti == read {
 							dep = true
@@ -1277,10 +1277,12 @@ func ruleMissPathGetsReadIndex(c *Ctx, rule string) {
 					case !isBasicKind(bo.X.Type(), types.Int):
 					case bo.Op == token.EQL && !lf.val, bo.Op == token.NEQ && lf.val, bo.Op == token.GTR && lf.val:
 						succeeded = true // len(list) != 0
+					case bo.Op == token.EQL && lf.val, bo.Op == token.NEQ && !lf.val, bo.Op == token.GTR && !lf.val:
+						emptyKnown = true // len(list) == 0: nothing to hand on
 					}
 				}
 			}
-			if !succeeded {
+			if !succeeded || emptyKnown {
 				continue
 			}
 			if k, ok := a.(*ssa.Const); ok && k.IsNil() {
